@@ -108,7 +108,8 @@ theorem powerOfPositiveTen_raw (num x : Nat) (hn0 : 0 < num) (hn : num < 2 ^ 64)
   obtain ⟨hb, k1, k2, k3⟩ := inv_to_close b (num * 5 ^ x) j x hNpos hfin hj20
   refine ⟨codeRaw b s, by simp [powerOfPositiveTen, hps, posFinish_eq b s hb hb256 (by omega)], ?_⟩
   rw [hV, hsx]
-  exact raw_close b (x + 64 * j) (num * 5 ^ x * 2 ^ x) hb k1 (fun h => k2 h) (fun h => k3 h)
+  obtain ⟨r1, r2, r3, _⟩ := raw_close b (x + 64 * j) (num * 5 ^ x * 2 ^ x) hb k1 (fun h => k2 h) (fun h => k3 h)
+  exact ⟨r1, r2, r3⟩
 
 theorem powerOfPositiveTen_close (num x : Nat) (hn0 : 0 < num) (hn : num < 2 ^ 64) (hx : x ≤ 2 ^ 20) :
     ∃ p, powerOfPositiveTen num x = some p ∧ ulpDist p (nearestMag (num * 10 ^ x) 1) ≤ 1 := by
